@@ -28,7 +28,7 @@ CONSTANTS
                     \* (DnssecDnsHandle::positive_validation_ttl / negative_validation_ttl)
     Deviation       \* "none", or one deliberate deviation of the machine from the required rules, to
                     \* show as a TLC counterexample that the rule is needed:
-                    \* "clampAfterCap" | "markGroup" | "signerZoneOf"
+                    \* "clampAfterCap" | "markGroup" | "signerZoneOf" | "xorKey" | "revokedSignsKeys"
 
 \* "addOtherClass": next to the genuine RRset a further record with the same owner and type
 \*     but another class arrives (a record of a different RRset, RFC 2181 5: no signature covers it)
@@ -37,17 +37,28 @@ CONSTANTS
 \* "childKey": the answer to the zone's DNSKEY query is padded with the authenticated zone key of
 \*     a securely delegated child zone (its owner is a proper subdomain of the Signer's Name);
 \*     the zone's own key is there as well
+\* "addForgedTwice": a fabricated record of the RRset's owner, class and type arrives with it, twice
+\*     (RFC 4034 6.3: the repetition does not count, the RRset presented has one more member)
+\* "twoSigs" / "swapSigs": two RRSIGs arrive, the genuine one and a non-verifying copy of it, the
+\*     genuine one first / second
+\* "revokedAnchor": the zone key is still among the validator's trust anchors but is now published
+\*     with the REVOKE bit (RFC 5011; its key tag changes with the flag); it signs a DNSKEY RRset
+\*     that introduces a further key, the forger's.  RFC 5011 2.1: a revoked key MUST NOT be used
+\*     as a trust anchor or for any other purpose than validating the self-signature "for the
+\*     purpose of validating the revocation" -- reading taken here: no RRset, the DNSKEY RRset
+\*     included, becomes Secure through a revoked key, so the further key is not authenticated.
 AllRRV  == {"genuine", "ownerCase", "owner", "class", "type", "rdataBit", "rdataNameCase", "addRecord", "dropRecord",
-            "addOtherClass"}
+            "addOtherClass", "addForgedTwice"}
 AllSIGV == {"genuine", "signerCase", "origTtl", "labelsUp", "labelsDown", "inc", "exp", "keyTag", "signer", "alg",
-            "sigBit", "typeCovered", "forged"}
-AllKEYV == {"genuine", "otherKey", "revoked", "notZoneKey", "wrongOwner", "wrongAlg", "unsupportedAlg", "childKey"}
+            "sigBit", "typeCovered", "forged", "twoSigs", "swapSigs"}
+AllKEYV == {"genuine", "otherKey", "revoked", "notZoneKey", "wrongOwner", "wrongAlg", "unsupportedAlg", "childKey",
+            "revokedAnchor"}
 
 ASSUME RRV \subseteq AllRRV /\ SIGV \subseteq AllSIGV /\ KEYV \subseteq AllKEYV
 
 Args == {a \in [rr : RRV, sig : SIGV, key : KEYV, rttl : RecTtls] :
             \* a forgery is made with the private key of the presented DNSKEY, which the forger holds
-            a.sig = "forged" => a.key \in {"otherKey", "childKey"}}
+            a.sig = "forged" => a.key \in {"otherKey", "childKey", "revokedAnchor"}}
 \* the single-field mutations of the property's quantifier: at most one of rr / sig / key
 \* is not the genuine object
 SingleVariantArgs ==
@@ -63,18 +74,20 @@ PropertyArgs == SingleVariantArgs \cup ForgedArgs
 \* the case of the owner name never matters, the case of names inside the RDATA only for
 \* the types that keep it
 RrSignedGenuine(v)  == v \in {"genuine", "ownerCase", "addOtherClass"} \/ (v = "rdataNameCase" /\ ~NameCaseSigned)
-\* records arrive with the RRset that are not members of it
-HasStray(v)         == v = "addOtherClass"
+\* records arrive with the RRset that are not members of it, or RRSIGs that do not verify
+HasStray(a)         == a.rr = "addOtherClass" \/ a.sig \in {"twoSigs", "swapSigs"}
 \* the RRset still has the owner, class and type the RRSIG belongs to
 RrBelongs(v)        == v \notin {"owner", "class", "type"}
 \* every signed field of the RRSIG RDATA and the signature are the genuine ones (the
 \* Signer's Name is signed in lower case)
-SigSignedGenuine(v) == v = "genuine" \/ v = "signerCase"
+\* (with two RRSIGs: the genuine one is among them)
+SigSignedGenuine(v) == v \in {"genuine", "signerCase", "twoSigs", "swapSigs"}
 SigInc(v)     == IF v = "inc" THEN IncAlt ELSE Inc
 SigExp(v)     == IF v = "exp" THEN ExpAlt ELSE Exp
 SigOrigTtl(v) == IF v = "origTtl" THEN OrigTtlAlt ELSE OrigTtl
 \* the DNSKEY: authenticated zone key, not revoked, usable
 KeyStateOk(v) == v \in {"genuine", "wrongOwner", "childKey"}   \* fine keys (wrongOwner: of another name)
+                 \/ (v = "revokedAnchor" /\ Deviation = "revokedSignsKeys")
 \* the zone's own DNSKEY (at the Signer's Name) is among the keys presented
 HasZoneKey(k) == k \in {"genuine", "childKey"}
 \* RFC 4035 5.3.1: Signer's Name, Algorithm, Key Tag match owner, algorithm, tag of the DNSKEY.
